@@ -90,16 +90,6 @@ where
                 return Poll::Ready(None);
             }
             let next = &chunks[0];
-            if self.chunk_buf.len() >= next.size {
-                self.chunk_index += 1;
-                let chunk = self.chunk_buf.split_to(next.size).freeze();
-                self.num_adjacent_reads -= 1;
-                if self.num_adjacent_reads == 0 {
-                    // Time to make another request.
-                    self.request = None;
-                }
-                return Poll::Ready(Some(Ok(chunk)));
-            }
             if self.request.is_none() {
                 // Create a new range request.
                 let request_builder = self
@@ -116,6 +106,18 @@ where
                         .retry(self.retry_count, self.retry_delay),
                 );
             };
+
+            // Only deliver from the buffer while the request which fills it is live.
+            if self.chunk_buf.len() >= next.size {
+                self.chunk_index += 1;
+                let chunk = self.chunk_buf.split_to(next.size).freeze();
+                self.num_adjacent_reads -= 1;
+                if self.num_adjacent_reads == 0 {
+                    // Time to make another request.
+                    self.request = None;
+                }
+                return Poll::Ready(Some(Ok(chunk)));
+            }
 
             // Poll for chunks.
             let request = self.request.as_mut().unwrap();
